@@ -140,7 +140,7 @@ ROUND2 = {
  "C03": " The generated value dispatchers are covered too: the value worlds of C10 as functions and as same-named methods of an OvldBase class (self, arguments and delegated arguments intact, no bad forward); parameter names that the generated entry point also uses (type, OVLD, KWARGS, TARGS, MISSING - the collision that was a known finding is repaired). (Beyond the property: inspect.signature(f) is checked against the analyser model, X1 clauses, EXTRA only.) Round 2c: ARG1 / ARG2 among the renamed parameters.",
  "C04": " Also: histories on a function one position of which takes both type[...] and instances that compare and hash equal across classes, judged against the first call ever made in a new interpreter. The error object of a failing call must be the call's own (identity across the history).",
  "C05": " Also: random histories on the public MultiTypeMap with Dependent / union / class_check signatures, and changes made by a running method followed by recurse / own name / call_next, judged over the method set after the change. In-flight changes include the registration of the function's first type[...] method followed by a recursion that passes a class. Round 2c: a running method that unregisters itself and recurses. (Beyond the property: histories with hot reloads through Conformer.__conform__ - one implementation step, two specification steps - X5 clauses of Trace_Table, EXTRA only.)",
- "C06": " The context sweep also runs over value worlds (Dependent / Literal, extras not applicable to the values) and over worlds whose arguments are types (keyword-only type[...] parameters made optional by an unrelated method).",
+ "C06": " The context sweep also runs over value worlds (Dependent / Literal, extras not applicable to the values) and over worlds whose arguments are types (keyword-only type[...] parameters made optional by an unrelated method). Round 3: keyed groups whose literals have two values each and share one with the next method (ambiguous in every context).",
  "C07": " Also: chains through the value dispatchers of Dependent / Literal worlds (call_next with the arguments received and with other values), through type[...] worlds with call_next and f.next, factory-made methods sharing a code object delegating with f.next, and f.next from a method with self (formerly a known finding, repaired).",
  "C08": " Also: recurse(a, recurse(b, c)) compared with f(a, f(b, c)); mixed-type Literal signatures; a change made on the parent of a linked variant while a call on the variant is running, followed by recurse / call_next. Round 2c: every behaviour is replayed a second time with probes only at its use steps (nodes rebuilt several times without serving a call).",
  "C09": " The grammar also has sites passing the positional parameter by keyword, recurse / the own name used as a value, a multi-line literal in an indented definition and a local that shadows `type`. Round 2b: keyword-first call sites (arguments evaluate in the order written), nested defs / lambdas that shadow the rewritten names, a class statement inside the method, postponed annotations, an empty closure cell, own-name sites written in full under the self wrapper. Round 2c: a nested lambda capturing recurse as the default of a parameter of the same name; a comprehension written directly in a class body inside the method. Round 3: wrapper twopos (two positional parameters, the second argument of every call site written y=..: both positionals by keyword in either order).",
@@ -150,9 +150,9 @@ ROUND2 = {
  "C13": " Each static type is also dispatched as the only method with its parameter optional. The recorded tables also ask subclasscheck about unions as Python writes them (A | B), plain and inside type[...]. Round 3: two deferred classes declared on one function before either module is imported (clause applicable_iff_sat.among_deferred).",
  "C14": " Also: positional-only parameters, a union of type[...] arms, object spelled typing.Any inside annotations, generics over a hierarchy of origins, a metaclass used as an annotation. Round 2b: Dependent[type[X], always], a Literal arm next to type[...] arms, an ordinary base class of a metaclass, Exactly[type] next to a type[...] method with delegation through f.next.",
  "C15": " Annotated[Any, ...] and the string 'Any' are in the missing / Any / object family. The union / Optional / Annotated families are also generated inside type[...]. Round 2c: list / typing.List inside type[...]; (X, None) in the Optional family.",
- "C16": " Also: mixed-type Literal signatures, recursion redirected by an unrelated registration, and a change on a parent whose propagation fails in one linked child (the other children still receive it). The Doc overlay replaces a parent's whole chain of re-registrations under a signature. Round 2c: behaviours of Ovld.tla with an unbuildable signature (failed first uses and failed rebuilds; LockJustified) replayed on real objects. (Beyond the property: Ovld.tla Conform - hot reload of a method of a node in use - model-checked under the same invariants with MC_Ovld_reload*.cfg, behaviours with hot reloads replayed and judged; X5 clauses, EXTRA only.)",
+ "C16": " Also: mixed-type Literal signatures, recursion redirected by an unrelated registration, and a change on a parent whose propagation fails in one linked child (the other children still receive it). The Doc overlay replaces a parent's whole chain of re-registrations under a signature. Round 2c: behaviours of Ovld.tla with an unbuildable signature (failed first uses and failed rebuilds; LockJustified) replayed on real objects. (Beyond the property: Ovld.tla Conform - hot reload of a method of a node in use - model-checked under the same invariants with MC_Ovld_reload*.cfg, behaviours with hot reloads replayed and judged; X5 clauses, EXTRA only.) Round 3: Gen_OvldChain - every history over a chain of three functions (each link with or without linkback) that ends by modifying an indirect ancestor of a function in use, generated exhaustively and replayed.",
  "C17": " Class bodies name the dispatched parameter their own way (keyword probes) and use a private name of the class.",
- "C18": " Also: world W4 (a failed resolution followed by call_next into the failed class), a raising plain-Python __subclasshook__, an invalid method registered on a parent with linked children. An offender on a parent with a copy / variant used first, then removed from the parent.",
+ "C18": " Also: world W4 (a failed resolution followed by call_next into the failed class), a raising plain-Python __subclasshook__, an invalid method registered on a parent with linked children. An offender on a parent with a copy / variant used first, then removed from the parent. Round 3: a focused sweep in every tier - every executed line of MultiTypeMap.__missing__ / resolve during a cache miss.",
  "C19": " Also: races of calls made on the Ovld object (variants, copies), racing calls that differ in optional keywords on a warm function, call_next with another class racing the first call for that class. Callers that read the function's signature before calling (what a Callable[...] annotation does); recorded build traces are validated together with three corrupted controls that must be rejected. Round 2c: sampled three-thread schedules on the real code; Build.tla with the argument analysis as shared state and peeking threads; in the thorough tier an inductive invariant of Build.tla discharged by Apalache (any number of calls).",
  "C20": " Also: dependents bounded by class predicates, two threads racing the first call with hooks counted afterwards, argument-type combinations tracked across nested calls (keywords written in another order). Recursions guarded by try / except (failed inner resolutions), class predicates in a union with a Literal. Round 2c: class predicates nested inside an intersection inside the union with a Literal. Round 3: class predicates in a union with a value-dependent member whose bound also admits classes the predicate rejects (a remembered 'no' must not be asked again; family C20-und).",
 }
